@@ -802,6 +802,23 @@ def library_oracle_(ctx, n, config, floor0):
             ctx.violation(case, "no exception", "%s: %s" % (type(e).__name__, e), "compute_full / streaming raises inside the precondition",
                           tags=dict(clause="raises", exc=type(e).__name__, dtype=dt, **tags))
             continue
+        if done % 4 == 1:
+            # a copy of a computer (copy.deepcopy, pickle round trip), taken after the original was used, is a computer with
+            # the same configuration: same features, bit for bit
+            for how, cl in common.clone_routes(comp):
+                ccase = dict(case, copy=how)
+                ctx.case(ccase, kind="lib_copy:" + how)
+                try:
+                    if isinstance(cl, Exception):
+                        raise cl
+                    full_c = cl.compute_full(x)
+                except Exception as e:
+                    ctx.violation(ccase, "a computer", "%s: %s" % (type(e).__name__, str(e)[:150]), "a copied computer computes",
+                                  tags=dict(clause="copy_equivalence", how="raises", **tags))
+                    continue
+                if full_c.shape != full.shape or full_c.tobytes() != full.tobytes():
+                    ctx.violation(ccase, "the original's features", "differs", "a %s copy of the computer returns the same features" % how,
+                                  tags=dict(clause="copy_equivalence", **tags))
         T = (N + S // 2) // S
         if full.shape != (T, comp.num_coeffs):
             ctx.violation(case, [T, comp.num_coeffs], list(full.shape), "compute_full returns (N + S//2)//S frames",
